@@ -862,6 +862,8 @@ func (eng) Run(c core.CaseDesc, tier string) *core.CaseResult {
 		}
 		evalDone := make(chan string, 1)
 		if landing == "eval-queued" {
+			// far away: the disposal, not the eval timeout, has to release the call
+			m.EvalTimeout = 40 * time.Second
 			go func() {
 				defer func() {
 					if rr := recover(); rr != nil {
@@ -905,14 +907,15 @@ func (eng) Run(c core.CaseDesc, tier string) *core.CaseResult {
 					res.Violate("C13/eval-queued/panic", "an Eval queued before Dispose panicked in its caller: "+msg,
 						map[string]any{"mode": mode, "seed": c.Seed})
 				}
-			case <-time.After(5 * time.Second):
-				// EvalTimeout is 1s: by then the call has returned in any case
-				res.Violate("C13/eval-queued/blocked", "an Eval queued before Dispose did not return after the machine was disposed "+
-					"(still blocked 5s after the handler was released, EvalTimeout is 1s)", map[string]any{"mode": mode, "seed": c.Seed})
-				select {
-				case <-evalDone:
-				case <-time.After(5 * time.Second):
+			case <-time.After(15 * time.Second):
+				// (EvalTimeout is 40s here)
+				if isClosed(m.WhenDisposed()) {
+					res.Violate("C13/eval-queued/blocked", "an Eval queued before Dispose is still blocked although WhenDisposed has closed "+
+						"(15s after the handler was released; only its own timeout of 40s will release it)", map[string]any{"mode": mode, "seed": c.Seed})
+				} else {
+					res.Inconclusive = "the disposal did not complete"
 				}
+				return res
 			}
 		}
 	case landing == "during-eval":
